@@ -187,11 +187,13 @@ pub struct World {
     pub dense_limit: usize,
     pub live_bytes: usize,
     pub peak_live: usize,
+    /// index of the `release_checks` word in the `Dlmalloc` object (None = not looked for yet, Some(None) = not found)
+    pub countdown_idx: Option<Option<usize>>,
 }
 
 impl World {
     pub fn new(dense_limit: usize) -> World {
-        World { k: Kernel::new(), a: Box::new(Dlmalloc::new()), slots: Vec::new(), next_seed: 1, dense_limit, live_bytes: 0, peak_live: 0 }
+        World { k: Kernel::new(), a: Box::new(Dlmalloc::new()), slots: Vec::new(), next_seed: 1, dense_limit, live_bytes: 0, peak_live: 0, countdown_idx: None }
     }
     /// fresh allocator over an empty address space (same arena)
     pub fn reset(&mut self) {
@@ -205,6 +207,32 @@ impl World {
         self.next_seed = 1;
         self.live_bytes = 0;
         self.peak_live = 0;
+    }
+    pub fn read_word(&self, idx: usize) -> u64 {
+        unsafe { (&*self.a as *const Dlmalloc as *const u64).add(idx).read_unaligned() }
+    }
+    pub fn write_word(&mut self, idx: usize, v: u64) {
+        unsafe { (&mut *self.a as *mut Dlmalloc as *mut u64).add(idx).write_unaligned(v) }
+    }
+    /// Find the `release_checks` word by experiment: two identical repetitions of "malloc(1000) malloc(24)
+    /// free free" (one tree-binned free each) end in the same heap and differ in exactly that word, by one.
+    pub fn find_countdown(&mut self) {
+        self.reset();
+        let mut snaps: Vec<Vec<u8>> = Vec::new();
+        for _ in 0..3 {
+            for op in [Op::Malloc { size: 1000, align: 8 }, Op::Malloc { size: 24, align: 8 }, Op::Free { slot: 0 }, Op::Free { slot: 1 }] {
+                self.step(op);
+            }
+            snaps.push(self.struct_bytes().to_vec());
+        }
+        let rd = |b: &Vec<u8>, i: usize| unsafe { (b.as_ptr() as *const u64).add(i).read_unaligned() };
+        let n = snaps[0].len() / 8;
+        let diff: Vec<usize> = (0..n).filter(|&i| rd(&snaps[1], i) != rd(&snaps[2], i)).collect();
+        self.countdown_idx = Some(match diff[..] {
+            [i] if rd(&snaps[1], i) == rd(&snaps[2], i) + 1 && rd(&snaps[0], i) == rd(&snaps[1], i) + 1 && rd(&snaps[0], i) <= 4095 => Some(i),
+            _ => None,
+        });
+        self.reset();
     }
     pub fn lowest_free_slot(&self) -> usize {
         self.slots.iter().position(|s| s.is_none()).unwrap_or(self.slots.len())
@@ -442,11 +470,16 @@ pub struct Case {
     pub loop_max: usize,
     /// ... then run these
     pub post: Vec<Op>,
+    /// (index into seed+history, value): before that operation the allocator's `release_checks` countdown is
+    /// set to `value` (never raised), i.e. the heap is taken to be `current - value` large frees older
+    pub countdown: Option<(usize, u64)>,
+    /// instead of writing the word, really perform `current - value` large frees there (validation of the shortcut)
+    pub countdown_brute: bool,
 }
 
 impl Case {
     pub fn plain(phase: &'static str, ops: Vec<Op>) -> Case {
-        Case { phase, seed_name: String::new(), seed: vec![], ops, script: vec![], default_policy: Policy::TopDown, refuse: vec![], sticky: false, loop_ops: vec![], loop_max: 0, post: vec![] }
+        Case { phase, seed_name: String::new(), seed: vec![], ops, script: vec![], default_policy: Policy::TopDown, refuse: vec![], sticky: false, loop_ops: vec![], loop_max: 0, post: vec![], countdown: None, countdown_brute: false }
     }
     pub fn to_json(&self) -> Value {
         json!({
@@ -461,6 +494,8 @@ impl Case {
             "loop": show_ops(&self.loop_ops),
             "loop_max": self.loop_max,
             "post": show_ops(&self.post),
+            "countdown": self.countdown.map(|(a, v)| vec![a as u64, v]),
+            "countdown_brute": self.countdown_brute,
         })
     }
     pub fn from_json(v: &Value) -> Case {
@@ -484,6 +519,8 @@ impl Case {
             loop_ops: parse_ops(&v["loop"]),
             loop_max: v["loop_max"].as_u64().unwrap_or(0) as usize,
             post: parse_ops(&v["post"]),
+            countdown: v["countdown"].as_array().and_then(|a| Some((a.first()?.as_u64()? as usize, a.get(1)?.as_u64()?))),
+            countdown_brute: v["countdown_brute"].as_bool().unwrap_or(false),
         }
     }
 }
@@ -498,6 +535,10 @@ pub struct RunInfo {
     pub calls_in_seed: usize,
     pub violated: bool,
     pub completed: bool,
+    /// (returned address, kernel events) of every operation from the countdown point on
+    pub trace: Vec<(usize, Vec<Ev>)>,
+    /// the countdown was really lowered
+    pub countdown_applied: bool,
     pub refusal_hit: bool,
     pub peak_footprint: usize,
     /// one operation made the allocator give back two or more whole mappings
@@ -506,6 +547,9 @@ pub struct RunInfo {
 
 /// Run a case with the oracle after every operation.  Violations and outcome classes go to `r`.
 pub fn run_case(w: &mut World, c: &Case, r: &mut Report, verbose: bool) -> RunInfo {
+    if c.countdown.is_some() && w.countdown_idx.is_none() {
+        w.find_countdown();
+    }
     w.reset();
     w.k.script = c.script.clone();
     w.k.default_policy = c.default_policy;
@@ -546,6 +590,65 @@ pub fn run_case(w: &mut World, c: &Case, r: &mut Report, verbose: bool) -> RunIn
         if i == c.seed.len() {
             info.calls_in_seed = w.k.calls;
         }
+        if let (Some((at, value)), Some(Some(idx))) = (c.countdown, w.countdown_idx) {
+            if at == i {
+                let cur = w.read_word(idx);
+                if cur > value && cur <= 4096 {
+                    info.countdown_applied = true;
+                    if !c.countdown_brute {
+                        if verbose {
+                            println!("  countdown word #{idx}: {cur} -> {value}");
+                        }
+                        w.write_word(idx, value);
+                    } else {
+                        // really age the heap: one tree-binned free per repetition
+                        set_case(&format!("{case_prefix},\"op\":\"free\",\"at\":{i},\"in\":\"countdown-brute-force-loop\"}}"));
+                        // one repetition = malloc(1000) malloc(300) free free: tree-bin sized requests only, so that
+                        // dv is left alone; it costs 1 or 2 countdown steps depending on what the blocks border on
+                        let mut last_d = 0u64;
+                        loop {
+                            let now = w.read_word(idx);
+                            if now <= value || now > cur {
+                                break;
+                            }
+                            let single = now - value == 1 && last_d == 2;
+                            let a = w.lowest_free_slot();
+                            let s1 = w.step(Op::Malloc { size: 1000, align: 8 });
+                            let mut steps = vec![s1];
+                            if single {
+                                steps.push(w.step(Op::Free { slot: a }));
+                            } else {
+                                let b = w.lowest_free_slot();
+                                steps.push(w.step(Op::Malloc { size: 300, align: 8 }));
+                                steps.push(w.step(Op::Free { slot: a }));
+                                steps.push(w.step(Op::Free { slot: b }));
+                            }
+                            if steps.iter().any(|s| !s.fails.is_empty() || s.dead || s.null) {
+                                info.violated = true;
+                                r.violation(
+                                    "C03:free:allocator-assertion",
+                                    format!("while ageing the heap by repeated malloc(1000) malloc(300) free free: {:?}", steps.iter().map(|s| s.fails.clone()).collect::<Vec<_>>()),
+                                    case_json.clone(),
+                                );
+                                return info;
+                            }
+                            last_d = now.wrapping_sub(w.read_word(idx));
+                            if last_d == 0 || last_d > 2 {
+                                break;
+                            }
+                        }
+                        clear_case();
+                        if verbose {
+                            println!("  aged the heap by {} tree-binned frees: countdown word {} -> {}", cur - value, cur, w.read_word(idx));
+                        }
+                        if w.read_word(idx) != value {
+                            r.outcome("countdown-brute-force:loop-did-not-reach-the-value");
+                            info.countdown_applied = false;
+                        }
+                    }
+                }
+            }
+        }
         let opname = if after_refusal { "oom" } else { op.kind() };
         set_case(&format!("{case_prefix},\"op\":\"{opname}\",\"at\":{i}}}"));
         let st = w.step(op);
@@ -565,6 +668,9 @@ pub fn run_case(w: &mut World, c: &Case, r: &mut Report, verbose: bool) -> RunIn
             );
         }
         r.outcome(&outcome_class(op, &st));
+        if matches!(c.countdown, Some((at, _)) if i >= at) {
+            info.trace.push((st.ptr, st.events.clone()));
+        }
         let n_released = st.events.iter().filter(|e| matches!(e, Ev::UnmapWhole)).count();
         if n_released >= 2 {
             r.outcome("release-pass-released>=2-segments");
